@@ -134,6 +134,8 @@ class Plan:
         self.counts_new = {}
         self.prefix_old = {}        # layer -> {service short name: prefix}
         self.prefix_new = {}
+        self.prefix_old_cut = {}    # the same under the other reading of "constant prefix" (see model)
+        self.prefix_new_cut = {}
         self.detail = None          # (old value, new value) of an attribute edit
         self.classes = set()
         self.nontrivial = False
@@ -155,6 +157,8 @@ def plan_generated(desc, edit) -> Plan:
         pl.counts_new[ln] = M.effective_counts(new, li)
         pl.prefix_old[ln] = {s["name"]: M.const_prefix(desc, o, s["request"]) for o, s in M.effective_services(desc, li)}
         pl.prefix_new[ln] = {s["name"]: M.const_prefix(new, o, s["request"]) for o, s in M.effective_services(new, li)}
+        pl.prefix_old_cut[ln] = {s["name"]: M.const_prefix(desc, o, s["request"], True) for o, s in M.effective_services(desc, li)}
+        pl.prefix_new_cut[ln] = {s["name"]: M.const_prefix(new, o, s["request"], True) for o, s in M.effective_services(new, li)}
         if pl.counts_old[ln]["comparams"] > 0:
             pl.classes.add("comparams>0")
         firsts = [p[:1] for p in pl.prefix_old[ln].values()]
@@ -225,6 +229,7 @@ def plan_somersault(edit) -> Plan:
     pl.layers = [M._sn(l) for l in old.layers()]
     pl.counts_old, pl.counts_new = M.pdx_counts(old), M.pdx_counts(new)
     pl.prefix_old, pl.prefix_new = M.pdx_prefixes(old), M.pdx_prefixes(new)
+    pl.prefix_old_cut, pl.prefix_new_cut = M.pdx_prefixes(old, True), M.pdx_prefixes(new, True)
     for ln in pl.layers:
         pl.expected[ln] = {q: [] for q in EMPTY}
         if pl.counts_old[ln]["comparams"] > 0:
@@ -282,15 +287,15 @@ def make_plan(case) -> Plan:
     return plan_somersault(case["edit"])
 
 
-def _crosscheck(db, prefixes, what):
+def _crosscheck(db, readings, what):
     """the model's idea of the layers, their services and request prefixes must be odxtools' (trusted
     base: loading, inheritance, coded_const_prefix); otherwise nothing can be concluded"""
     got = {}
     for dl in db.diag_layers:
         got[dl.short_name] = {s.short_name: bytes(s.request.coded_const_prefix()) for s in dl.services}
-    if got != prefixes:
+    if got not in readings:
         raise core.Inconclusive(f"model and odxtools disagree about services / request prefixes of the {what} "
-                                f"version: model={prefixes} odxtools={got}")
+                                f"version: model={readings} odxtools={got}")
 
 
 def evaluate(case):
@@ -315,8 +320,8 @@ def evaluate(case):
 
     db_new = load_documents(pl.new_docs, pl.aux)
     db_old = load_documents(pl.old_docs, pl.aux)
-    _crosscheck(db_new, pl.prefix_new, "new")
-    _crosscheck(db_old, pl.prefix_old, "old")
+    _crosscheck(db_new, (pl.prefix_new, pl.prefix_new_cut), "new")
+    _crosscheck(db_old, (pl.prefix_old, pl.prefix_old_cut), "old")
 
     import odxtools.cli._print_utils as PU
     import odxtools.cli.compare as C
@@ -476,7 +481,7 @@ def _strategies():
     def cc(name, pos, value, bits, typ, sem):
         return {"kind": "CC", "name": name, "pos": pos, "bits": bits, "value": value, "type": typ, "semantic": sem}
 
-    def draw_params(draw, head, avail, n_extra):
+    def draw_params(draw, head, avail, n_extra, contiguous_head=False):
         """head: [(name, value, bits)] leading constants; returns the parameter list with a drawn layout"""
         raw = [cc(n, None, v, b, draw(st.sampled_from(M.INT_TYPES)), draw(st.sampled_from(M.SEMANTICS)))
                for n, v, b in head]
@@ -491,8 +496,9 @@ def _strategies():
                             "semantic": draw(st.sampled_from(M.SEMANTICS))})
         bits = {d["name"]: d["bits"] for d in avail}
         cursor = 0
-        for p in raw:
-            gap = draw(st.sampled_from([0, 0, 0, 1, 2]))
+        for k, p in enumerate(raw):
+            # the identifying constants of a request are contiguous from byte 0 in the generated base
+            gap = 0 if (contiguous_head and k < len(head)) else draw(st.sampled_from([0, 0, 0, 1, 2]))
             start = cursor + gap
             p["pos"] = None if (gap == 0 and draw(st.integers(0, 3)) == 0) else start
             cursor = start + (p["bits"] if p["kind"] == "CC" else bits[p["dop"]]) // 8
@@ -503,11 +509,13 @@ def _strategies():
         sub_bits = draw(st.sampled_from([8, 8, 16]))
         sub = draw(st.integers(0, 6))
         rq = {"name": f"rq_{name}",
-              "params": draw_params(draw, [("sid", sid, 8), ("sub", sub, sub_bits)], avail, draw(st.integers(0, 2)))}
+              "params": draw_params(draw, [("sid", sid, 8), ("sub", sub, sub_bits)], avail, draw(st.integers(0, 2)),
+                                    contiguous_head=True)}
         tmp = {"layers": [{"name": "x", "parent": None, "dops": avail, "services": [], "comparam_refs": []}]}
-        while M.const_prefix(tmp, 0, rq) in used_px:
+        while (False, M.const_prefix(tmp, 0, rq, False)) in used_px or (True, M.const_prefix(tmp, 0, rq, True)) in used_px:
             rq["params"][1]["value"] = (rq["params"][1]["value"] + 1) % (1 << (sub_bits - 1))
-        used_px.add(M.const_prefix(tmp, 0, rq))
+        used_px.add((False, M.const_prefix(tmp, 0, rq, False)))
+        used_px.add((True, M.const_prefix(tmp, 0, rq, True)))
         pos = [{"name": f"pr_{name}_{i}",
                 "params": draw_params(draw, [("sid", sid + 0x40, 8)], avail, draw(st.integers(0, 2)))}
                for i in range(draw(st.integers(0, 2)))]
